@@ -20,7 +20,7 @@ ASSUMPTIONS = c01.ASSUMPTIONS
 SHORT = [0]      # how many bitmap bytes the 'shortrec' record keeps (set per case)
 KINDS = ['truncated', 'oversized', 'badmti', 'unknownbit', 'badlen', 'badtyped', 'badpds', 'badicc', 'shortrec',
          'shortfixed', 'shortvar2', 'shortvar3', 'surplus', 'unknownbit_end', 'unknownbit_128', 'baddate_hour', 'baddate_month',
-         'foreignlen2', 'foreignlen3', 'foreignmti']
+         'foreignlen2', 'foreignlen3', 'foreignmti', 'zonedpos', 'zonedneg', 'zonedbrace']
 
 
 def custom_config():
@@ -69,6 +69,13 @@ def bad_record(kind, codec):
         return e('1240') + bm([2]) + e('zz12')
     if kind == 'badtyped':
         return e('1240') + bm([4]) + e('00000000abcd')
+    # a number whose LAST character only is no digit (what a zoned-decimal unload would look like: sign over the digit)
+    if kind == 'zonedpos':
+        return e('1240') + bm([4]) + e('00000000250A')
+    if kind == 'zonedneg':
+        return e('1240') + bm([4, 71]) + e('000000002500' + '0000012R')
+    if kind == 'zonedbrace':
+        return e('1240') + bm([4]) + e('00000000250}')
     if kind == 'badpds':
         return e('1240') + bm([48]) + e('0090023xyz')
     if kind == 'shortrec':       # a record too short to hold MTI + bitmap, with a perfectly numeric MTI
@@ -127,6 +134,11 @@ def build(case):
         item = struct.pack('>I', len(r)) + r
         if i == k and kind == 'oversized':
             item = struct.pack('>I', 6001 + case.get('extra', 0)) + r
+            if case.get('rdw'):
+                # an over-long length that another convention would read as fitting: the record's own length (+4, +0)
+                # in the HIGH two bytes and zeros in the low two (an IBM record descriptor word), or byte-swapped
+                item = {'rdw4': struct.pack('>HH', len(r) + 4, 0), 'rdw0': struct.pack('>HH', len(r), 0),
+                        'little': struct.pack('<I', len(r)), 'rdw4le': struct.pack('<HH', len(r) + 4, 0)}[case['rdw']] + r
             raw_k = item[:4]
         elif i == k:
             raw_k = item
@@ -231,6 +243,8 @@ def explore(run, tier):
                         cases.append(c)
                         if kind == 'oversized':
                             cases.append(dict(c, extra=2 ** 31))
+                            for rdw in ('rdw4', 'rdw0', 'little', 'rdw4le'):
+                                cases.append(dict(c, rdw=rdw))
                             # length values that look like filler / text: 0x40404040, 0x20202020, 0xFFFFFFFF, 0x00004040
                             for val in (0x40404040, 0x20202020, 0xFFFFFFFF, 0x00004040, 0xF0F0F0F0):
                                 cases.append(dict(c, extra=val - 6001))
